@@ -1027,6 +1027,82 @@ def rule_r18(prog, res):
     res.floor('R18', 'helpers writing with a polymorphic protocol', m, 1)
 
 
+def rule_r19(prog, res):
+    res.rule('R19', 'the dict writer names an object after the class it '
+             'writes its members with (cls, which the polymorphic switch has '
+             'already set), never after the instance; the dict protocols '
+             'forward polymorphic to their base constructor under its own '
+             'name')
+    h = prog.cls('spyne.protocol.dictdoc.hier:HierDictDocument')
+    f = h.methods.get('_complex_to_dict')
+    if f is None:
+        raise AnalysisError('HierDictDocument._complex_to_dict', 'not found')
+    n = 0
+    for d in walk_no_defs(f.node):
+        if not isinstance(d, ast.Dict):
+            continue
+        for k in d.keys:
+            for c in ast.walk(k):
+                if isinstance(c, ast.Call) and call_name(c) == \
+                        'get_type_name' and isinstance(c.func, ast.Attribute):
+                    n += 1
+                    recv = unparse(c.func.value)
+                    ok = recv == 'cls'
+                    where = '%s:%d' % (f.module.relpath, c.lineno)
+                    res.ob('R19', where, '_complex_to_dict names the object '
+                           'after %s' % recv, 'ok' if ok else 'VIOLATED')
+                    if not ok:
+                        res.finding('R19', '_complex_to_dict|wrapper-key-'
+                                    'from|%s' % recv, where, 'the wrapper '
+                                    'key is %s.get_type_name(): with '
+                                    'polymorphic=False a subclass instance '
+                                    'is written with the base\'s fields '
+                                    'under the subclass name, and a slot '
+                                    'declared through a named customization '
+                                    'gets a name the reader does not '
+                                    'expect' % recv)
+    res.floor('R19', 'wrapper keys in _complex_to_dict', n, 2)
+    k_ = 0
+    for cfq in ('spyne.protocol.json:JsonDocument',
+                'spyne.protocol.yaml:YamlDocument',
+                'spyne.protocol.msgpack:MessagePackDocument'):
+        c = prog.cls(cfq)
+        f = c.methods.get('__init__')
+        if f is None or 'polymorphic' not in f.params():
+            continue
+        base_init = prog.cls('spyne.protocol.dictdoc._base:DictDocument'
+                             ).methods.get('__init__')
+        bparams = base_init.params() if base_init is not None else []
+        for call in calls_in(f.node):
+            if call_name(call) != '__init__' or not (
+                    'super' in unparse(call.func) or 'Document' in unparse(
+                        call.func)):
+                continue
+            k_ += 1
+            bound = None
+            for kw in call.keywords:
+                if kw.arg == 'polymorphic':
+                    bound = unparse(kw.value)
+            if bound is None and 'polymorphic' in bparams:
+                idx = bparams.index('polymorphic') - 1     # minus self
+                if 'super' not in unparse(call.func):
+                    idx += 1
+                if 0 <= idx < len(call.args):
+                    bound = unparse(call.args[idx])
+            ok = bound == 'polymorphic'
+            where = '%s:%d' % (f.module.relpath, call.lineno)
+            res.ob('R19', where, '%s.__init__ forwards polymorphic=%s' % (
+                c.name, bound), 'ok' if ok else 'VIOLATED')
+            if not ok:
+                res.finding('R19', '%s.__init__|polymorphic-not-forwarded' %
+                            c.name, where, '%s.__init__ binds the base '
+                            'constructor\'s polymorphic parameter to %s: '
+                            '%s(polymorphic=True) never switches to the '
+                            'class of the instance, subclass fields and '
+                            'markers are lost' % (c.name, bound, c.name))
+    res.floor('R19', 'base constructor calls of the dict protocols', k_, 2)
+
+
 def run(prog, res, tier):
     res.run_rule(rule_r1, prog, res)
     res.run_rule(rule_r2, prog, res)
@@ -1046,6 +1122,7 @@ def run(prog, res, tier):
     res.run_rule(rule_r16, prog, res)
     res.run_rule(rule_r17, prog, res)
     res.run_rule(rule_r18, prog, res)
+    res.run_rule(rule_r19, prog, res)
 
 
 _C = 'spyne/model/complex.py'
@@ -1055,6 +1132,10 @@ _I = 'spyne/interface/_base.py'
 _H = 'spyne/protocol/dictdoc/hier.py'
 
 MUTANTS = [
+    Mutant('wrapper-key-from-instance', 'R19', 'fire', _H,
+           in_func('HierDictDocument._complex_to_dict',
+                   "return {cls.get_type_name(): d}",
+                   "return {inst.get_type_name(): d}"), 'wrapper-key-from'),
     Mutant('kept-prefixes-minus-root-declarations', 'R13', 'fire', _X,
            in_func('XmlDocument._cleanup_namespaces',
                    "        etree.cleanup_namespaces(document, top_nsmap=top_"
